@@ -64,9 +64,28 @@ static int h_tcp_poll(struct pollfd *fds, nfds_t n, int timeout) {
         }
     }
 }
+/* the real tcpserverwr as a harness-run writer (C02 hand-off): what it writes is recorded */
+#include "hworld.h"
+extern int h_client_index_by_sock(int fd);
+static __thread int h_tcp_is_writer;
+static ssize_t h_tcp_write(int fd, const void *buf, size_t len) {
+    if (h_tcp_is_writer) {
+        char name[16];
+        snprintf(name, sizeof(name), "%d", h_client_index_by_sock(fd));
+        h_event("wout", name, buf, (int)len);
+        return (ssize_t)len;
+    }
+    return write(fd, buf, len);
+}
 #define poll h_tcp_poll
+#define write(fd, b, l) h_tcp_write((fd), (b), (l))
 #include "tcp.c"
 #undef poll
+#undef write
+void *h_tcpserverwr(void *arg) {
+    h_tcp_is_writer = 1;
+    return tcpserverwr(arg);
+}
 
 /* tcpstream client|server <timeout> <event>..   events: w:<hex> | t | e
    client: the loop of tcpclientrd (a timeout is reported and reading goes on); server: the loop of tcpserverrd */
